@@ -143,7 +143,8 @@ class ResourceScenario(ScenarioData):
         if leaves:
             for leave in leaves:
                 if hasattr(leave, "interval"):
-                    start_idx = self.project.dateToIdx(leave.interval.start)
+                    # A leave may begin before the project does; negative indices would wrap around
+                    start_idx = max(0, self.project.dateToIdx(leave.interval.start))
                     end_idx = self.project.dateToIdx(leave.interval.end)
                     for i in range(start_idx, min(end_idx, size)):
                         sb = self.scoreboard[i]
@@ -156,7 +157,7 @@ class ResourceScenario(ScenarioData):
         if res_leaves:
             for leave in res_leaves:
                 if hasattr(leave, "interval"):
-                    start_idx = self.project.dateToIdx(leave.interval.start)
+                    start_idx = max(0, self.project.dateToIdx(leave.interval.start))
                     end_idx = self.project.dateToIdx(leave.interval.end)
                     for i in range(start_idx, min(end_idx, size)):
                         sb = self.scoreboard[i]
